@@ -63,11 +63,13 @@ pub fn judge_c01(m: &MMsg, p: &Probe) -> Judge {
 
 pub fn run_c01(ctx: &Ctx) {
     ctx.set_rule(
-        "proptest-generated model messages (operation group first, 0-5 further groups incl. repeats/empties, 0-8 attributes per group, all 22 value kinds, sets homogeneous/mixed, collections nested up to depth 6, boundary lengths 0/255/256/65534/65535 injected, payloads 0 B-64 KiB) built through the public API, serialised with into_read(), parsed with both parsers and compared with the model in canonical form. Non-trivial = contains a mixed-syntax set, multi-valued collection member, collection nested >=2, set of collections, >=3 groups, repeated group kind, empty group, boundary length or non-empty payload; distinct by hash of the model message.",
+        "proptest-generated model messages (operation group first, 0-5 further groups incl. repeats/empties, 0-8 attributes per group, all 22 value kinds, sets homogeneous/mixed, collections nested up to depth 6, boundary lengths 0/255/256/65534/65535 injected, payloads 0 B-64 KiB) built through the public API, serialised with into_read(), parsed with both parsers and compared with the model in canonical form; plus 6 deterministic shapes (wide set, set of collections, distinct attributes, members, groups, mixed-syntax set) at 16 boundary counts from 255 to 65537. Non-trivial = contains a mixed-syntax set, multi-valued collection member, collection nested >=2, set of collections, >=3 groups, repeated group kind, empty group, boundary length or non-empty payload; distinct by hash of the model message.",
     );
     ctx.assume("strings longer than 65535 octets and utc_dir above U+00FF are outside the wire format and not generated");
     let (shards, per) = ctx.tier.pick((16, 4000), (16, 120000));
     run_prop(ctx, "roundtrip", shards, per, || gen::m_msg(6), judge_c01, mmsg_json);
+    // boundary counts: 6 deterministic shapes at 16 counts from 255 to 65537
+    run_boundary_counts(ctx, "boundary-counts", roundtrip_core);
 }
 
 fn fuzz_model(case: &Value) -> Result<MMsg, Fail> {
@@ -75,7 +77,43 @@ fn fuzz_model(case: &Value) -> Result<MMsg, Fail> {
     vcore::fuzzdec::mmsg_from_bytes(&bytes).ok_or_else(|| Fail::new("bad-replay", "fuzzer input does not decode to a model message"))
 }
 
+/// the model message of a deterministic big shape (see vcore::bigshapes)
+fn big_model(shape: usize, n: usize) -> Option<MMsg> {
+    let w = vcore::bigshapes::big_shape(shape, n);
+    let mut c = interpret(&w)?;
+    // sets stay explicit in a model message; interpret() identifies singletons, and no big shape has any
+    if c.groups.first().map(|g| g.0) != Some(1) {
+        return None;
+    }
+    c.version = w.version;
+    Some(MMsg { canon: c, payload: w.payload })
+}
+
+fn run_boundary_counts(ctx: &Ctx, sub: &'static str, f: impl Fn(&MMsg) -> Judge + Sync) {
+    let jobs: Vec<(usize, usize)> = (0..vcore::bigshapes::SHAPES.len()).flat_map(|s| vcore::bigshapes::COUNTS.iter().map(move |n| (s, *n))).collect();
+    let jobs = std::sync::Mutex::new(jobs);
+    std::thread::scope(|sc| {
+        for _ in 0..16 {
+            sc.spawn(|| loop {
+                let Some((shape, n)) = jobs.lock().unwrap().pop() else { return };
+                let Some(m) = big_model(shape, n) else { continue };
+                ctx.eval();
+                ctx.nontrivial(hash64(&("bigshape", shape, n)));
+                ctx.label("boundary count");
+                if let Err(fl) = f(&m) {
+                    let fl = Fail::new(format!("{}/boundary-count", fl.sig), format!("{} with n={n}: {}", vcore::bigshapes::SHAPES[shape], fl.msg.chars().take(600).collect::<String>()));
+                    ctx.failure(sub, &fl, json!({"big_shape": shape, "n": n}));
+                }
+            });
+        }
+    });
+}
+
 pub fn replay_c01(ctx: &Ctx, sub: &str, case: &Value) -> Judge {
+    if let Some(s) = case.get("big_shape").and_then(|s| s.as_u64()) {
+        let m = big_model(s as usize, case.get("n").and_then(|n| n.as_u64()).unwrap_or(1) as usize).ok_or_else(|| Fail::new("bad-replay", "shape"))?;
+        return roundtrip_core(&m);
+    }
     if sub.starts_with("fuzz-") {
         let m = fuzz_model(case)?;
         println!("model message: {}", abbreviate(&mmsg_json(&m)));
@@ -166,9 +204,14 @@ pub fn run_c03(ctx: &Ctx) {
     let builds = ctx.tier.pick(8, 16);
     let (shards, per) = ctx.tier.pick((16, 4000), (16, 60000));
     run_prop(ctx, "encode", shards, per, || gen::m_msg(6), |m, p| judge_c03(m, p, builds), mmsg_json);
+    run_boundary_counts(ctx, "boundary-counts", |m| judge_encoding(m, &m.build().to_bytes()));
 }
 
 pub fn replay_c03(ctx: &Ctx, sub: &str, case: &Value) -> Judge {
+    if let Some(s) = case.get("big_shape").and_then(|s| s.as_u64()) {
+        let m = big_model(s as usize, case.get("n").and_then(|n| n.as_u64()).unwrap_or(1) as usize).ok_or_else(|| Fail::new("bad-replay", "shape"))?;
+        return judge_encoding(&m, &m.build().to_bytes());
+    }
     if sub.starts_with("fuzz-") {
         let m = fuzz_model(case)?;
         return judge_encoding(&m, &m.build().to_bytes());
